@@ -101,7 +101,32 @@ Members2 == {   \* two variables (x1, x2)
     Mem(TDV("DualVec", 2, D), 2, << {".eps[1,1].re", ".re.eps"}, {".eps[2,1].re"} >>,
         {<<".eps[1,1].eps", <<2, 0>>>>, <<".eps[2,1].eps", <<1, 1>>>>})
 }
-Members == Members1 \cup Members2
+Members3 == {   \* three variables, one direction each: the only seeding under which the three mixed second-order parts of a
+                \* third-order type hold three DIFFERENT derivatives (with one or two variables two of them coincide)
+    Mem(TD("HHD", F), 3, << {".eps1"}, {".eps2"}, {".eps3"} >>,
+        {<<".eps1", <<1, 0, 0>>>>, <<".eps2", <<0, 1, 0>>>>, <<".eps3", <<0, 0, 1>>>>, <<".eps1eps2", <<1, 1, 0>>>>,
+         <<".eps1eps3", <<1, 0, 1>>>>, <<".eps2eps3", <<0, 1, 1>>>>, <<".eps1eps2eps3", <<1, 1, 1>>>>}),
+    Mem(TD("Dual", TD("Dual", D)), 3, << {".re.re.eps"}, {".re.eps.re"}, {".eps.re.re"} >>,
+        {<<".eps.eps.eps", <<1, 1, 1>>>>, <<".re.eps.eps", <<1, 1, 0>>>>, <<".eps.re.eps", <<1, 0, 1>>>>, <<".eps.eps.re", <<0, 1, 1>>>>,
+         <<".re.re.eps", <<1, 0, 0>>>>, <<".re.eps.re", <<0, 1, 0>>>>, <<".eps.re.re", <<0, 0, 1>>>>}),
+    Mem(TD("HyperDual", D), 3, << {".re.eps"}, {".eps1.re"}, {".eps2.re"} >>,
+        {<<".eps1eps2.eps", <<1, 1, 1>>>>, <<".eps1eps2.re", <<0, 1, 1>>>>, <<".eps1.eps", <<1, 1, 0>>>>, <<".eps2.eps", <<1, 0, 1>>>>}),
+    Mem(TD("HyperDual", F), 3, << {".eps1"}, {".eps2"}, {} >>, {<<".eps1eps2", <<1, 1, 0>>>>}),
+    Mem(TD("HyperDual", F), 3, << {".eps1"}, {}, {".eps2"} >>, {<<".eps1eps2", <<1, 0, 1>>>>}),
+    Mem(TD("HyperDual", F), 3, << {}, {".eps1"}, {".eps2"} >>, {<<".eps1eps2", <<0, 1, 1>>>>}),
+    Mem(TD("Dual", F), 3, << {".eps"}, {}, {} >>, {<<".eps", <<1, 0, 0>>>>}),
+    Mem(TD("Dual", F), 3, << {}, {".eps"}, {} >>, {<<".eps", <<0, 1, 0>>>>}),
+    Mem(TD("Dual", F), 3, << {}, {}, {".eps"} >>, {<<".eps", <<0, 0, 1>>>>})
+}
+Members2b == {  \* further two-variable seedings of the third-order type
+    Mem(TD("HHD", F), 2, << {".eps1"}, {".eps2", ".eps3"} >>,
+        {<<".eps1eps2", <<1, 1>>>>, <<".eps1eps3", <<1, 1>>>>, <<".eps2eps3", <<0, 2>>>>, <<".eps1eps2eps3", <<1, 2>>>>}),
+    Mem(TD("HHD", F), 2, << {".eps1", ".eps3"}, {".eps2"} >>,
+        {<<".eps1eps3", <<2, 0>>>>, <<".eps1eps2", <<1, 1>>>>, <<".eps2eps3", <<1, 1>>>>, <<".eps1eps2eps3", <<2, 1>>>>}),
+    Mem(TD("Dual3", F), 2, << {}, {".v1"} >>, {<<".v3", <<0, 3>>>>, <<".v2", <<0, 2>>>>}),
+    Mem(TD("Dual2", D), 2, << {".re.eps"}, {".v1.re"} >>, {<<".v2.eps", <<1, 2>>>>, <<".v2.re", <<0, 2>>>>})
+}
+Members == Members1 \cup Members2 \cup Members2b \cup Members3
 
 ReadOK(mb, rd) == EvalJet(mb.ty, mb.nv, mb.seeds)[(CHOOSE l \in Locs(mb.ty, 1) : l.p = rd[1]).s] = Partial(mb.nv, rd[2])
 
